@@ -7,12 +7,13 @@
 // session.  The property sentence is evaluated on what came back:
 //   - "never panics"                          -> a recovered panic, a Go fatal error (stack overflow)
 //   - "always returns, in time bounded by the size of the template, the context and the result"
-//                                             -> a call that trips the watchdog / the memory limit although the
-//                                                result it is computing is small (result-sized work such as
-//                                                repeat("x", 2000000000) or 2 ^ 999999999 is allowed)
+//     -> a call that trips the watchdog / the memory limit although the
+//     result it is computing is small (result-sized work such as
+//     repeat("x", 2000000000) or 2 ^ 999999999 is allowed)
 //   - "failures are reported as error values and error events" -> a failed session evaluation logged no error
-//                                                event; a router test returned something that is neither an
-//                                                object nor an error (switch.go panics on that)
+//     event; a router test returned something that is neither an
+//     object nor an error (switch.go panics on that)
+//
 // Correspondence: calls of the functions modelled in coq/model/ExEval.v are written to cases_C04_*.v with
 // what the implementation returned (see corr.go).
 package main
